@@ -87,6 +87,19 @@ func (r *cache) trySaveSnapshot(shardID uint64,
 	return index > v
 }
 
+// removeNode forgets the hard state, the snapshot index and the last entry batch
+// cached for the specified node. It is invoked when the data of the node is
+// removed from the LogDB, the cached values describe records that no longer
+// exist.
+func (r *cache) removeNode(shardID uint64, replicaID uint64) {
+	r.mu.Lock()
+	defer r.mu.Unlock()
+	key := raftio.NodeInfo{ShardID: shardID, ReplicaID: replicaID}
+	delete(r.ps, key)
+	delete(r.snapshotIndex, key)
+	delete(r.lastEntryBatch, key)
+}
+
 func (r *cache) setMaxIndex(shardID uint64, replicaID uint64, maxIndex uint64) {
 	r.mu.Lock()
 	defer r.mu.Unlock()
